@@ -75,7 +75,16 @@ func (p *psRun) startReceiver(s *psSub, seed uint64) {
 	}()
 }
 
-func (p *psRun) publish(variant int, evs []int) {
+// publish hands the library its own copy of the batch and overwrites that copy
+// as soon as the call has returned: a publish variant that keeps reading the
+// caller's slice after returning delivers the scribbled values (-1).
+func (p *psRun) publish(variant int, batch []int) {
+	evs := append([]int(nil), batch...)
+	defer func() {
+		for i := range evs {
+			evs[i] = -1
+		}
+	}()
 	switch variant {
 	case 0:
 		for _, e := range evs {
@@ -172,6 +181,10 @@ func c10stable(c *core.Ctx) {
 		run.startReceiver(s, r.Uint64())
 	}
 	npub, per := r.Range(1, 3), r.Range(1, 8)
+	if r.Chance(1, 10) {
+		// big batches (slice variants publish them in one call)
+		npub, per = 1, r.Range(33, 200)
+	}
 	baseline := runtime.NumGoroutine()
 	type callRet struct {
 		evs []int
